@@ -3,7 +3,7 @@ from __future__ import annotations
 
 import numpy as np
 
-from vf import gen
+from vf import gen, plumbing
 from vf.props import c02
 
 PID = "C04"
@@ -20,7 +20,17 @@ RULE = ("one coloured-noise recording (2..9 channels, >= 4 segments) cut into 2.
 ASSUMPTIONS = ["fdd.SD_est is trusted through the C13 monitors", "lines where the reference block has condition number > 1e8 are not judged"]
 
 
+PLUMB_CLASSES = ['FDD_MS', 'EFDD_MS', 'pLSCF_MS']
+PLUMB_FIELDS = ['freq', 'Sy']
+REQUIRED_MONITORS = list(REQUIRED_MONITORS) + [f"plumbing:{s_}" for s_ in plumbing.SCENARIOS]
+REQUIRED_STATES = list(REQUIRED_STATES) + [f"plumbing scenario {s_}" for s_ in plumbing.SCENARIOS]
+
+
 def cases(tier, seed):
+    return _cases(tier, seed) + plumbing.cases(len(plumbing.SCENARIOS) * len(PLUMB_CLASSES) * (1 if tier == "quick" else 6), PLUMB_CLASSES)
+
+
+def _cases(tier, seed):
     nA, nB, nC = (150, 60, 36) if tier == "quick" else (3000, 1200, 400)
     return ([{"cls": "one_recording_fn", "k": k} for k in range(nA)] + [{"cls": "general_fn", "k": k} for k in range(nB)]
             + [{"cls": "one_recording_classes", "k": k} for k in range(nC)])
@@ -247,5 +257,7 @@ def one_classes_pass(ctx, rng, rep, nset, nref, nrov, ndof, chan_glob, reflist, 
 
 
 def run_case(ctx, case):
+    if case["cls"] == "plumbing":
+        return plumbing.run_case(ctx, case, gen.rng_of(case), PLUMB_FIELDS)
     rng = gen.rng_of(case)
     {"one_recording_fn": run_one_fn, "general_fn": run_general, "one_recording_classes": run_one_classes}[case["cls"]](ctx, rng)
